@@ -14,6 +14,16 @@ check.ensure_makefile()
 PY
 (cd coq && timeout 3000 make -j16 > ../.cache_coq_build.log 2>&1) || { tail -50 .cache_coq_build.log; echo "coq build failed (checks will report it per property)"; }
 rm -f .cache_coq_build.log
+# record the per-property proof results (Print Assumptions output) for the sources as they are now
+python3 - <<'PY'
+import sys, glob, json
+sys.path.insert(0, "tools")
+import check
+for f in sorted(glob.glob("props/C*.json")):
+    m = json.load(open(f))
+    r = check.build_props(m["property_id"], m, [])
+    print("proofs", m["property_id"], "ok" if r.get("ok") else "FAILED: " + r.get("reason", ""))
+PY
 cp "${VERIF_REPO:-/repo}/Cargo.lock" harness/Cargo.lock
 # one binary per property; a binary that does not build is reported by its own check
 (cd harness && cargo build --offline -q --bins --keep-going 2>&1 | grep -E "^error" -A8 || true)
